@@ -2,6 +2,7 @@ package main
 
 import (
 	"go/ast"
+	"go/constant"
 	"go/token"
 	"go/types"
 
@@ -14,6 +15,7 @@ type condAssume struct {
 	info *types.Info
 	bval map[types.Object]bool         // boolean variable -> assumed value
 	eq   map[types.Object]types.Object // variable -> the constant object it is assumed equal to
+	ival map[types.Object]int64        // integer variable -> assumed value
 }
 
 func (a *condAssume) eval(e ast.Expr) int {
@@ -55,7 +57,14 @@ func (a *condAssume) eval(e ast.Expr) int {
 			if x == 0 && y == 0 {
 				return 0
 			}
+		case token.LSS, token.LEQ, token.GTR, token.GEQ:
+			if r, ok := a.cmpInt(v); ok {
+				return r
+			}
 		case token.EQL, token.NEQ:
+			if r, ok := a.cmpInt(v); ok {
+				return r
+			}
 			for _, pair := range [][2]ast.Expr{{v.X, v.Y}, {v.Y, v.X}} {
 				vo := objOf(a.info, pair[0])
 				if vo == nil {
@@ -83,7 +92,53 @@ func (a *condAssume) eval(e ast.Expr) int {
 	return -1
 }
 
-func (a *condAssume) blockEdge() func(b *cfg.Block, i int) bool {
+// intOf: the value of an integer operand: a constant, or a variable with an assumed value.
+func (a *condAssume) intOf(e ast.Expr) (int64, bool) {
+	e = unparen(e)
+	if tv, ok := a.info.Types[e]; ok && tv.Value != nil && tv.Value.Kind() == constant.Int {
+		return constant.Int64Val(tv.Value)
+	}
+	if o := objOf(a.info, e); o != nil {
+		if v, ok := a.ival[o]; ok {
+			return v, true
+		}
+	}
+	return 0, false
+}
+
+func (a *condAssume) cmpInt(v *ast.BinaryExpr) (int, bool) {
+	if len(a.ival) == 0 {
+		return 0, false
+	}
+	x, ok1 := a.intOf(v.X)
+	y, ok2 := a.intOf(v.Y)
+	if !ok1 || !ok2 {
+		return 0, false
+	}
+	var r bool
+	switch v.Op {
+	case token.LSS:
+		r = x < y
+	case token.LEQ:
+		r = x <= y
+	case token.GTR:
+		r = x > y
+	case token.GEQ:
+		r = x >= y
+	case token.EQL:
+		r = x == y
+	case token.NEQ:
+		r = x != y
+	default:
+		return 0, false
+	}
+	if r {
+		return 1, true
+	}
+	return 0, true
+}
+
+func (a *condAssume) blockEdge()func(b *cfg.Block, i int) bool {
 	return func(b *cfg.Block, i int) bool {
 		if len(b.Succs) != 2 || len(b.Nodes) == 0 {
 			return false
